@@ -42,6 +42,9 @@ var (
 )
 
 func quietLogs() {
+	if os.Getenv("VERIF_LOGS") != "" {
+		return
+	}
 	log.SetOutput(io.Discard)
 }
 
@@ -58,6 +61,19 @@ type InstOpts struct {
 	EvictionInterval time.Duration
 	Clock            *VClock
 	Extra            []func(*sugardb.SugarDB)
+	Cluster          *ClusterOpts
+}
+
+// ClusterOpts makes the instance a member of a raft cluster.
+type ClusterOpts struct {
+	ServerID      string
+	BindAddr      string
+	Port          int
+	DiscoveryPort int
+	RaftPort      int
+	JoinAddr      string // "" for the bootstrap node
+	Bootstrap     bool
+	Forward       bool
 }
 
 type Inst struct {
@@ -92,6 +108,20 @@ func NewInst(o InstOpts) (*Inst, error) {
 	conf.EvictionInterval = time.Hour
 	if o.EvictionInterval != 0 {
 		conf.EvictionInterval = o.EvictionInterval
+	}
+	if c := o.Cluster; c != nil {
+		conf.ServerID = c.ServerID
+		conf.BindAddr = c.BindAddr
+		conf.Port = uint16(c.Port)
+		conf.DiscoveryPort = uint16(c.DiscoveryPort)
+		conf.RaftBindAddr = c.BindAddr
+		conf.RaftBindPort = uint16(c.RaftPort)
+		conf.JoinAddr = c.JoinAddr
+		conf.BootstrapCluster = c.Bootstrap
+		conf.ForwardCommand = c.Forward
+		if conf.SnapshotInterval == 0 {
+			conf.SnapshotInterval = time.Hour // raft refuses an interval below 5 ms
+		}
 	}
 	clk := o.Clock
 	if clk == nil {
